@@ -274,7 +274,19 @@ impl<'t, 'a> MutGen<'t, 'a> {
                 _ => {
                     let dir = *self.t.choose(&[RoundDir::Up, RoundDir::Down, RoundDir::Nearest]);
                     self.labels.insert(format!("turn:{:?}", dir));
-                    s.push(Stmt::Rounding { dir, operand: pe(operand) });
+                    // now and then an operator expression as operand: nothing to round in place, a runtime error
+                    let operand = if form != 3 && self.t.chance(1, 10) {
+                        self.labels.insert("turn_on_operator_expression".into());
+                        match self.t.pick(4) {
+                            0 => bin(BinOp::Plus, pe(operand), var(&d)),
+                            1 => un(UnOp::Minus, pe(operand)),
+                            2 => bin(BinOp::Multiply, pe(operand.clone()), pe(operand)),
+                            _ => bin(BinOp::Eq, pe(operand), var(&d)),
+                        }
+                    } else {
+                        pe(operand)
+                    };
+                    s.push(Stmt::Rounding { dir, operand });
                 }
             }
             if form == 3 {
